@@ -71,6 +71,12 @@ def reset():
     return load()
 
 
+def cell_module():
+    load()
+    import pyfvtool.cell as cm
+    return cm
+
+
 def pdesolver_module():
     load()
     import pyfvtool.pdesolver as ps
